@@ -65,8 +65,20 @@ def _tokens(prog, fn_key, e, depth=0, seen=frozenset()):
     vocabulary of their bodies."""
     out = set()
     e = deep(prog, fn_key, e)
+    # an Option assembled on several paths counts as a flag where it is only asked whether it is Some (`it.find(..).map(..)
+    # .is_some()` after desugaring); an Option that is compared or unwrapped is a value, and how a value was computed is not
+    # a condition
+    opt_flags = set()
     for x in subexprs(e):
-        if x[0] == "phi" and depth < 2 and fn_key in prog.fns and prog.fns[fn_key].body.locals[x[1]]["ty"] == "bool":
+        if x[0] == "call" and x[1].split("::")[-1] in ("is_some", "is_none") and "Option" in x[1] and x[2]:
+            a0 = strip(x[2][0])
+            if a0[0] == "phi":
+                opt_flags.add(a0[1])
+        if x[0] == "discr" and strip(x[1])[0] == "phi":
+            opt_flags.add(strip(x[1])[1])
+    for x in subexprs(e):
+        if x[0] == "phi" and depth < 2 and fn_key in prog.fns and \
+                (prog.fns[fn_key].body.locals[x[1]]["ty"] == "bool" or x[1] in opt_flags):
             # a flag assembled on several paths (`let found = match it.find(..) { Some(..) => true, None => false }`): what its
             # definitions were computed from, and the branches that chose between them
             body_ = prog.fns[fn_key].body
@@ -304,11 +316,12 @@ def _write_sites(prog):
         if fld == "*" or not _known_adt(prog, adt):
             continue
         for w in ws:
-            if w["kind"] != "assign" or not w["exact"]:
+            if w["kind"] not in ("assign", "borrow_mut") or not w["exact"]:
                 continue
             f = prog.fns[w["fn"]]
             if f.j.get("stub"):
                 continue
+            # (`x.f = v` and `match &mut x.f { .. }` / `x.f.as_mut()` are two spellings of updating the field)
             out.setdefault((w["fn"], "%s.%s" % (adt, fld)), []).append(w["bb"])
     for key, f in prog.fns.items():
         if f.j.get("stub"):
